@@ -5,7 +5,7 @@ PROP_FILES = ['Properties/C12']
 EXTRACT_FILES = ['Extract/Mux']
 EXTRA_OBLIGATION_FILES = ['Proofs/MuxGuards']
 
-PROFILES = ['fault', 'fault', 'mixed', 'close']
+PROFILES = ['fault', 'fault', 'mixed', 'close', 'sendfail']
 N_QUICK, N_THOROUGH = 300, 4000
 RULE = 'seeded lock-step scenarios with connection failures (reset seen by both ends) at arbitrary frame boundaries, FINs, session Close by either side racing (at label granularity) with open/read/write/close and frames in flight, inactivity timers on a virtual clock; state dumps (Q) at quiescent moments; distinct = distinct concrete label sequences'
 ORACLE = muxlib.oracle_c12
